@@ -93,6 +93,11 @@ CLAIMS["C08"] = ("sibling agreement across type switches (strategy x method matr
  "Trusted: go/ssa + go/types. Not covered: correctness of each arm's view, build-route equality and codec round trips as values, generated code (templates are strings).",
  "DESIGN.md section 3, C08")
 
+CLAIMS["C07"] = ("dispatch-table and writer/reader key agreement (constants through the type-checked program), must-pass-through and value-identity rules on the walk engine functions",
+ "Engine-level necessary conditions of 'a walk visits what the selector denotes': every Selector type is constructed by a Parse function the union switch dispatches to (distinct constant keys); the keys the spec builder writes are keys the dispatched parser reads; the visit precedes child exploration; descent only with the non-nil selector Explore returned for that child; visit reports (Match result, match reason) or (node, candidate reason); WalkMatching calls the user function only for matches; a missing interest does not end the interest loop; links are loaded with the chooser's prototype; ExploreRecursive never discards a non-nil explored selector. The denotation of each clause kind is value-level and not decided.",
+ "Trusted: go/ssa + go/types. Not covered: which children each clause selects, range/depth arithmetic, visit order as a sequence, subset slicing.",
+ "DESIGN.md section 3, C07")
+
 NOT_APPLICABLE = {
  "C13": "concerns the output of running the code generator on arbitrary schemas and the run-time equivalence of two engines; the generator's logic lives in text/template strings, so no typed program exists to analyse before execution (DESIGN.md section 4)",
 }
